@@ -89,7 +89,7 @@ CLAIMS = {
          'consumed, and no unwrap/panic is reachable. Context-dependent objects (ciphertexts, keys, containers) are not covered.', '5 C15'),
  'C14': ('For the same context-free types: serialize appends exactly enc(x), serialized_size == |enc(x)| == bytes written, deserialize consumes exactly |enc(v)| bytes and '
          '(for canonical input) those bytes are enc(v); byte-width packing read/write are mutually consistent for every limit 0..8. Ciphertext/key/container formats not covered.', '5 C14'), 'C20': ('Index safety and acceptance of the 2-D convolution encoders, for every shape admitted by the helper invariant (blocks between kernel and tensor size, one batch-block x channel-block x height-block x width-block fits the slot count; every dimension up to 4096): '
-         'Conv2dHelper::encode_weights_bfv and encode_inputs_bfv are proved free of out-of-bounds accesses and arithmetic overflow in their 6- and 8-deep loop nests (source and destination index formulas bounded by nonlinear-arithmetic lemmas), to terminate, '
+         'Conv2dHelper::encode_weights_bfv, encode_inputs_bfv and decrypt_outputs_bfv are proved free of out-of-bounds accesses, division by zero and arithmetic overflow in their 6- and 8-deep loop nests (source and destination index formulas bounded by nonlinear-arithmetic lemmas), to terminate, '
          'and to hand the encoder only coefficient lists it accepts (BatchEncoder::encode_polynomial_new proved, in unit c11_batch, to accept every list of at most N values and to reduce each coefficient modulo t); ceil_div is proved against its definition. '
          'ASSUMED: the helper invariant itself (Conv2dHelper::new iterates reversed inclusive ranges, which Verus cannot take). '
          'Not covered (most of the property): that the homomorphic product / correlation equals the plaintext one (needs polynomial-multiplication semantics of the ciphertext operations), the placement formulas as values (only their ranges), output decoding / packing, all matmul variants (cheetah, bolt_*), the RNS-plaintext wrapper, CKKS variants.', '5 C20'),
